@@ -346,3 +346,19 @@ def element_paths(root):
                 cur = cur.kids[i]
             out.setdefault(node.text, []).append("/".join(chain[-3:]) + "#%d" % (path[-1] if path else 0))
     return out
+
+
+def from_xml(xml):
+    """parse an XML string into N nodes (tokens keep their text, everything else its children)"""
+    import xml.etree.ElementTree as ET
+
+    def conv(e):
+        tag = e.tag.split("}")[-1]
+        kids = list(e)
+        if kids or tag not in ("mi", "mn", "mo", "mtext", "ms"):
+            n = N(tag, [conv(k) for k in kids])
+        else:
+            n = N(tag, text=e.text or "")
+        n.attrs = dict(e.attrib)
+        return n
+    return conv(ET.fromstring(xml))
